@@ -240,4 +240,7 @@ def check(run):
             n_b += 1
             run.check(found, 'R-BCAST', f'{owner}.{meth}: observations get an explicit (broadcast) class axis', f.loc(), 'y[..., None, :, :] / reshape(1, ...)',
                       'the component model is not called on observations with an inserted singleton class axis', construct=f'R-BCAST::{f.qual}::class-axis')
+    from .. import reshape as _rs
+    _n = _rs.check_reshapes(run, A, [D + 'gcacgmm::GCACGMMTrainer.fit', D + 'vmfcacgmm::VMFCACGMMTrainer.fit', D + 'gcacgmm::GCACGMM.predict', D + 'vmfcacgmm::VMFCACGMM.predict'])
+    run.floor('reshapes of the integration models with resolved axis order', _n, 4)
     run.floor('per-class broadcast sites', n_b, 14)
